@@ -504,6 +504,10 @@ func (r *Recomposer) recomp(v any, rv reflect.Value) {
 		rv.Set(reflect.ValueOf(v))
 
 	case reflect.Bool:
+		if b, ok := v.(bool); ok { // also into a named bool type
+			rv.SetBool(b)
+			break
+		}
 		rv.Set(reflect.ValueOf(v))
 	case reflect.Int, reflect.Int8, reflect.Int16, reflect.Int32, reflect.Int64,
 		reflect.Uint, reflect.Uint8, reflect.Uint16, reflect.Uint32, reflect.Uint64,
@@ -530,6 +534,10 @@ func (r *Recomposer) setValue(v any, rv reflect.Value, sf *reflect.StructField) 
 				panic(err)
 			}
 		} else {
+			if b, ok := v.(bool); ok { // also into a named bool type
+				rv.SetBool(b)
+				break
+			}
 			rv.Set(reflect.ValueOf(v))
 		}
 	case reflect.Int, reflect.Int8, reflect.Int16, reflect.Int32, reflect.Int64,
